@@ -406,7 +406,7 @@ func killAndRestart(home, dir string, snap Snap) {
 	writeDecoys(home)
 	cmd := exec.Command(bin)
 	cmd.Dir = home
-	cmd.Env = []string{"HOME=" + home, "DASTARD_VERIF_C16=settings", "PATH=" + os.Getenv("PATH")}
+	cmd.Env = append([]string{"HOME=" + home, "DASTARD_VERIF_C16=settings", "PATH=" + os.Getenv("PATH")}, decoyEnv()...)
 	if out, err := cmd.CombinedOutput(); err != nil {
 		panic(fmt.Sprintf("start-up in place failed: %v: %s", err, out))
 	}
@@ -866,10 +866,45 @@ func runHist(c Case, scratch string, tags map[string]bool) (string, interface{},
 			sc.ConfigureTriangleSource(&tcfg, &okay)
 			started := sc.Start(&name, &okay) == nil
 			writing := false
+			// trigger requests for different subsets of the channels: the table the RPC layer has put into
+			// effect is the union, whatever each TRIGGER message carried
+			trig := map[int]dastard.TriggerState{}
+			if started {
+				reqs := []dastard.FullTriggerState{
+					{ChannelIndices: []int{0, 1}, TriggerState: dastard.TriggerState{AutoTrigger: true, AutoDelay: time.Duration(50+i) * time.Millisecond}},
+					{ChannelIndices: []int{2, 3}, TriggerState: dastard.TriggerState{LevelTrigger: true, LevelRising: true, LevelLevel: dastard.RawType(1234 + i)}},
+				}
+				if o.N >= 2 {
+					reqs = append(reqs, dastard.FullTriggerState{ChannelIndices: []int{1}, TriggerState: dastard.TriggerState{EdgeTrigger: true, EdgeRising: true, EdgeLevel: int32(77 + i)}})
+				}
+				for k := range reqs {
+					if sc.ConfigureTriggers(&reqs[k], &okay) == nil {
+						for _, ch := range reqs[k].ChannelIndices {
+							trig[ch] = reqs[k].TriggerState
+						}
+					}
+				}
+			}
+			// record lengths and group-trigger connections, the latter in two requests for different sources
+			lengths := [2]int{0, 0}
+			groups := map[int][]int{}
+			if started {
+				sz := dastard.SizeObject{Nsamp: 600 + 10*i, Npre: 100 + i}
+				if sc.ConfigurePulseLengths(sz, &okay) == nil {
+					lengths = [2]int{sz.Nsamp, sz.Npre}
+				}
+				for _, conn := range []map[int][]int{{0: {1}}, {2: {3}}} {
+					if sc.AddGroupTriggerCoupling(dastard.GroupTriggerState{Connections: conn}, &okay) == nil {
+						for src, rx := range conn {
+							groups[src] = rx
+						}
+					}
+				}
+			}
 			if started {
 				wc := dastard.WriteControlConfig{Request: "Start", Path: base, WriteLJH22: true}
 				writing = sc.WriteControl(&wc, &okay) == nil
-				if writing && o.N == 1 {
+				if writing && o.N%2 == 1 {
 					wc2 := dastard.WriteControlConfig{Request: "Stop"}
 					sc.WriteControl(&wc2, &okay)
 				}
@@ -912,9 +947,27 @@ func runHist(c Case, scratch string, tags map[string]bool) (string, interface{},
 				inUse := mustJSON(project("writing", &dastard.WritingState{BasePath: base}))
 				markers = append(markers, marker{pos: len(sentLog), nsaves: func() int { rec.mu.Lock(); defer rec.mu.Unlock(); return len(rec.saves) }(), term: fmt.Sprintf("IU %s %s", coqStr("writing"), coqVal(inUse)),
 					impl: map[string]string{"base_path_in_use": base}})
-				if o.N == 0 {
+				if o.N%2 == 0 {
 					tags["source-stopped-while-writing"] = true
 				}
+			}
+			nsvNow := func() int { rec.mu.Lock(); defer rec.mu.Unlock(); return len(rec.saves) }()
+			if lengths[0] > 0 {
+				v := mustJSON(map[string]int{"Nsamples": lengths[0], "Npresamp": lengths[1]})
+				markers = append(markers, marker{pos: len(sentLog), nsaves: nsvNow, term: fmt.Sprintf("IU %s %s", coqStr("status"), coqVal(v)),
+					impl: map[string]interface{}{"record_lengths_in_use": lengths}})
+			}
+			if len(groups) == 2 {
+				v := normJSON(dastard.GroupTriggerState{Connections: groups})
+				markers = append(markers, marker{pos: len(sentLog), nsaves: nsvNow, term: fmt.Sprintf("IU %s %s", coqStr("grouptrigger"), coqVal(v)),
+					impl: map[string]interface{}{"group_trigger_in_use": groups}})
+			}
+			if len(trig) == 4 { // every channel of the source was set by a request: the table is known
+				nsv := func() int { rec.mu.Lock(); defer rec.mu.Unlock(); return len(rec.saves) }()
+				markers = append(markers, marker{pos: len(sentLog), nsaves: nsv,
+					term: fmt.Sprintf("IU %s %s", coqStr("trigger"), coqVal(mustJSON(trig))),
+					impl: map[string]interface{}{"trigger_table_in_use": trig}})
+				tags["trigger-requests-for-channel-subsets"] = true
 			}
 		case "R":
 			closeBatch()
